@@ -147,6 +147,19 @@ theorem looped_orphan_dropped (W : World) (f : Nat) (ctx : Ctx) (st : St) (tag :
     evalList W (f + 1) ctx st (.elem tag attrs kids :: rest) = evalList W f ctx st rest :=
   orphan_else_dropped W f ctx st tag attrs kids rest h1 h2 h5 h6
 
+/-- A SELECTED MEMBER WHOSE OWN LOOP IS EMPTY RENDERS NOTHING - and stays the selected member: the chain walker hands the member to
+    `evaluateNodeAsElement`, whose answer is the loop's (empty) output; the members after it were already skipped by `chainSelect`, so no
+    later `v-else-if` / `v-else` renders in its place. (Empty list, empty map, or a collection that does not resolve.) -/
+theorem looped_member_with_empty_loop_renders_nothing (W : World) (f : Nat) (ctx : Ctx) (st : St) (tag : Str) (attrs : List Attr) (kids : List Node)
+    (e coll : Str) (vars : List Str) (c : Option Val)
+    (hfor : getAttr attrs (S "v-for") = e) (hne : e ≠ []) (hp : parseFor e = .ok (vars, coll))
+    (hr : st.stack.resolve W.P.cfg coll = .ok c)
+    (hc : c = none ∨ (∃ a, c = some (.list a [])) ∨ (∃ mk, c = some (.map mk []))) :
+    evalAsElement W (f + 3) ctx st tag attrs kids = .ok ([], st) := by
+  have hne2 : (e != []) = true := by simpa using hne
+  rcases hc with rfl | ⟨a, rfl⟩ | ⟨mk, rfl⟩ <;>
+    simp [evalAsElement, hfor, hne2, evalFor, hp, hr, bindE, evalForItems]
+
 theorem hasAttr_removeAttr_self (attrs : List Attr) (k : Str) : hasAttr (removeAttr attrs k) k = false := by
   simp [hasAttr, removeAttr, List.any_filter]
 
